@@ -148,7 +148,7 @@ func CheckErrPropagated(fn *ssa.Function, call ssa.CallInstruction) (problems []
 					if state == "nil" {
 						return
 					}
-					slot := x.Results[errIdx]
+					slot := ResolvedResults(x)[errIdx]
 					if aliases[slot] {
 						return
 					}
